@@ -320,8 +320,8 @@ class Concrete:
         return {s: Rational(self.rng.randint(3, 17), self.rng.randint(2, 7)) for fam in (False, True) for s in self.syms[fam]}
 
 
-def numeric_equal(a, b, conc, npts=3, tol=1e-9):
-    """Compare two concrete expressions at random rational points (40 digits)."""
+def _numeric_equal_N(a, b, conc, npts=3, tol=1e-9):
+    """fallback: sympy.N at 40 digits"""
     worst = 0.0
     for _ in range(npts):
         pt = conc.point()
@@ -337,4 +337,44 @@ def numeric_equal(a, b, conc, npts=3, tol=1e-9):
         worst = max(worst, d / scale)
         if d / scale > tol:
             return False, {"point": {str(k): str(v) for k, v in pt.items()}, "lhs": str(va)[:40], "rhs": str(vb)[:40]}
+    return True, {"worst_rel": worst}
+
+
+def numeric_equal(a, b, conc, npts=3, tol=1e-9):
+    """Compare two concrete expressions at random rational points with mpmath at 50 digits (through lambdify).
+    sympy.N is avoided: at high precision it can return exactly 0 for products containing sin(c)**2 + cos(c)**2."""
+    import mpmath
+    a, b = sp.sympify(a), sp.sympify(b)
+    syms = sorted((a.free_symbols | b.free_symbols), key=lambda s: s.name)
+    try:
+        fa = sp.lambdify(syms, a, "mpmath")
+        fb = sp.lambdify(syms, b, "mpmath")
+    except Exception:  # noqa
+        return _numeric_equal_N(a, b, conc, npts=npts, tol=tol)
+    worst = 0.0
+    old = mpmath.mp.dps
+    mpmath.mp.dps = 50
+    try:
+        for _ in range(npts):
+            pt = conc.point()
+            vals = []
+            for s_ in syms:
+                v = pt.get(s_)
+                if v is None:
+                    v = pt.get(Symbol(s_.name, real=True), Rational(1, 3))
+                vals.append(mpmath.mpf(int(v.p)) / mpmath.mpf(int(v.q)))
+            try:
+                va, vb = mpmath.mpmathify(fa(*vals)), mpmath.mpmathify(fb(*vals))
+            except Exception:  # noqa  (pole, domain error: try another point)
+                continue
+            if not (mpmath.isfinite(va) and mpmath.isfinite(vb)):
+                continue
+            d = abs(va - vb)
+            scale = max(mpmath.mpf(1), abs(va), abs(vb))
+            worst = max(worst, float(d / scale))
+            if d / scale > tol:
+                return False, {"point": {str(k): str(v) for k, v in pt.items()},
+                               "lhs": mpmath.nstr(va, 30), "rhs": mpmath.nstr(vb, 30)}
+    finally:
+        mpmath.mp.dps = old
     return True, {"worst_rel": worst}
